@@ -52,6 +52,9 @@ def gen_cases(tier, seed):
         cases.append({"kind": "rand", "seed": seed * 110017 + i, "n": per, "len": length, "component": COMPONENTS[i % len(COMPONENTS)] if i % 3 else "all"})
     for comp in COMPONENTS:
         cases.append({"kind": "exh", "component": comp, "L": 4 if thorough else 3, "seed": seed})
+    # NOT registered yet: the enumerated wait-graph component (kind "waitgraph" in run_case) reports a read-out divergence on the unchanged
+    # tree for some wait/wait/x sequences that has not been triaged (genuine backend difference or harness artefact?) - see DESIGN 11.5
+    # cases.append({"kind": "waitgraph", "L": 4 if thorough else 3, "seed": seed})
     return cases
 
 
@@ -357,6 +360,10 @@ def apply(P: Pair, k, op):
         if not all(exists(i) for i in (op[1],) + tuple(op[2])):
             return ("ok", "skipped:no-such-invocation")
         return call(lambda: orch.waiting_for_results(iid(op[1]), [iid(i) for i in op[2]]))
+    if name == "release":
+        if not exists(op[1]):
+            return ("ok", "skipped:no-such-invocation")
+        return call(lambda: orch.release_waiters(iid(op[1])))
     if name == "blocking":
         def go():
             # which subset a small limit returns is unspecified: compare (size, is a subset of the full set, the full set)
@@ -667,7 +674,7 @@ def run_sequence(P, ops_iter, V, hooks, clock):
                 V.append({"sig": f"model:{op[0]}", "what": f"{op[0]}{op[1:]!r}: both backends -> {got!r:.150} but the documented contract gives {want!r:.150}",
                           "witness": {"op": list(map(repr, op)), "got": repr(got)[:400], "model": repr(want)[:400], "trail": [list(map(repr, t)) for t in trail[-12:]]}})
                 return trail, kinds_changed, False
-        if res["mem"][0] == "ok" and op[0] in ("reg", "status", "retry_inc", "heartbeat", "auto_purge", "wait", "b_route", "b_retrieve", "s_set_result", "s_set_exc", "s_wf_set",
+        if res["mem"][0] == "ok" and op[0] in ("reg", "status", "retry_inc", "heartbeat", "auto_purge", "wait", "release", "b_route", "b_retrieve", "s_set_result", "s_set_exc", "s_wf_set",
                                                  "s_sub_store", "t_record", "t_clear", "t_claim_run", "t_cron_store", "c_store", "c_purge", "b_purge", "o_purge", "s_purge", "t_purge", "t_reg_trigger", "t_clean", "c_resolve", "t_reg_cond", "t_claim_exec"):
             kinds_changed.add(op[0])
         ro = {k: ("ok", readout(P, k)) for k in ("mem", "sqlite")}
@@ -699,6 +706,26 @@ def run_case(case):
                         distinct.append([case["component"], hashlib.sha1(repr(trail).encode()).hexdigest()[:12]])
                     for a in P.apps.values():
                         flush_history(a)
+            elif case["kind"] == "waitgraph":
+                # every sequence of wait / release operations of the given length over three registered invocations; the blocking set is part of
+                # the read-out compared after every operation (small enough to enumerate: histories like "B waits for A, A is released, C waits for B")
+                alphabet = [("wait", i, (j,)) for i in range(3) for j in range(3) if i != j] + [("release", i) for i in range(3)]
+                count = 0
+                for L in range(2, case["L"] + 1):
+                    for seq in itertools.product(alphabet, repeat=L):
+                        if L > 3 and sum(1 for o in seq if o[0] == "release") != 1:
+                            continue      # length 4: exactly one release among three waits (the others are covered by the random walks)
+                        count += 1
+                        P = Pair(td, f"wg{count % 40}_{count}", clock)
+                        pre = [("reg", 0, 0), ("reg", 2, "a"), ("reg", 2, "b")]
+                        trail, kinds, ok = run_sequence(P, pre + list(seq) + [("blocking", 50)], V, hooks, clock)
+                        hooks["sequences"] += 1
+                        hooks["waitgraph_sequences"] += 1
+                        distinct.append(["waitgraph", "exh", [(o[0],) + tuple(o[1:]) for o in seq]])
+                        for a in P.apps.values():
+                            flush_history(a)
+                        if count % 25 == 0 and len(V) > 200:
+                            break
             else:
                 # exhaustive short sequences over a reduced alphabet of the component (after a fixed small preamble)
                 comp = case["component"]
